@@ -27,6 +27,7 @@ PROPS = {
 
 PROPS["C10"] = {
     "harness": {"kind": "cmd", "cmd": "c10"},
+    "extra_harnesses": [{"cmd": "nodewire", "tag": "nodewire"}],
     "level_text": "Theorems for every natural-number cap (no 64-bit bound) and every environment: a submission happens only for a pending target; the replacement has the target's nonce, the client's chain id, value 0, empty data, gas 21000, destination = own address, tip = floor(110*max(tip_o,tip_s)/100) >= both tips, feeCap = max(price_o,feeCap_o)+tip >= feeCap_o+tip; any other lookup answer or a failing call yields an error and no submission. The literals 110/100/21000/0 are regenerated from CancelTx's source and pinned by a theorem. The model is tied to the real EvmClient.CancelTx over a scripted chain node (targets sent through the client first or foreign, legacy and dynamic-fee, boundary and >64-bit caps, every fault).",
     "level_note": "Trusted: Lean kernel; differential harness as evidence model = code; go-ethereum types.Transaction accessors and London signer; mockevm. The signed raw transaction reaching the stub node is decoded, so chain id and sender are observed, not assumed.",
     "nontrivial_rule": "distinct (tag, model observation) pairs; tag = lookup kind (+tracked when the target was first sent through the client)",
@@ -36,6 +37,7 @@ PROPS["C10"] = {
 PROPS["C08"] = {
     "harness": {"kind": "overlay", "pkg": "pkg/evmclient", "pkgname": "evmclient",
                 "files": ["evmclient/stub_test.go", "evmclient/c08_test.go"], "test": "TestVerifC08"},
+    "extra_harnesses": [{"cmd": "nodewire", "tag": "nodewire"}],
     "level_text": "Theorem by induction over arbitrary operation lists (sends with any pending answer or failure and any failing call, monitor updates, restarts): every successfully submitted nonce n satisfies max(prev+1, own pending answer) <= n <= max(prev+1, largest pending answer since the previous success) and n <= highest confirmed nonce reported + 1024 (literal; the window constant is regenerated from the source). Corollaries proved on event lists: strictly increasing within a lifetime, consecutive when nothing failed/intervened, a failed request consumes no nonce, restart monotonicity under the (necessary, witnessed) fresh-answer hypothesis. The model is tied to the real EvmClient.Send + real watch loop over a scripted chain node with in-package access.",
     "level_note": "Trusted: Lean kernel; differential harness; atomicity of Send (whole body under c.mtx) and of the monitor's atomic word are modelling assumptions; the first is exercised on every run by sends overlapping in time (the first is held inside its gas-estimate call while the second arrives), both under -race in the thorough tier. Restart: the client persists nothing, so cross-restart monotonicity is proved under the stated environment hypothesis.",
     "nontrivial_rule": "distinct (tag, model event list) pairs; a sequence is non-trivial when it contains at least one send",
@@ -63,6 +65,7 @@ PROPS["C11"] = {
 
 PROPS["C02"] = {
     "harness": {"kind": "cmd", "cmd": "signer"},
+    "extra_harnesses": [{"cmd": "sendbid", "tag": "sendbid"}],
     "level_text": "Theorems for every hash function H and every signature scheme S (primitives are parameters): acceptance characterisation (iff) of VerifyBid and VerifyPreConfirmation; field binding - equal bid digests imply equal tx-hash bytes, amount value, block number and timestamps, and equal commitment digests additionally equal bid digest and bid signature bytes, or an explicit H-collision is exhibited (injectivity of 256-bit two's complement on the int64 window and on [0,2^256), of lowercase hex, of fixed-width concatenation); malleation - (r, n-s) fails the low-S check (arithmetic on secp256k1's n); completeness - messages built by the node's own signing functions verify to its address (under the stated key-signer laws); no verification path panics. Tied to the real preconfsigner over real keys: primitive answers come from go-ethereum directly, all hashes are recomputed by the Lean Keccak; every single-field and several multi-field value-changing perturbations, digest substitution, s -> n-s, v flips, r/s bit flips, all signature/digest lengths 0..66, absent parts.",
     "level_note": "Trusted: Lean kernel; differential harness; secp256k1 recover/verify and Keccak are parameters of the theorems (EUF-CMA and collision resistance turn the structural facts into the informal 'cannot forge' claim and are not proved); big.Int.SetString / math.U256Bytes modelled byte-exactly and compared on every case.",
     "nontrivial_rule": "distinct (perturbation tag, outcome class) cells; every case is a fresh random key/field combination",
@@ -209,7 +212,7 @@ def canon(x):
 
 PROPS["C05"] = {
     "harness": {"kind": "cmd", "cmd": "sendbid"},
-    "extra_harnesses": [{"cmd": "nodewire", "tag": "nodewire"}],
+    "extra_harnesses": [{"cmd": "nodewire", "tag": "nodewire"}, {"kind": "overlay", "pkg": "pkg/p2p/libp2p", "pkgname": "libp2p", "files": ["libp2p/c14_test.go"], "test": "TestVerifC14Order", "tag": "notify-order"}],
     "agree": _c05_agree,
     "level_text": "Theorems for every number of providers, every reply behaviour and every arrival order (any duplicate-free order of the per-provider goroutines; order independence proved as a permutation statement): every delivered commitment passed VerifyPreConfirmation, carries as provider address the recovered signer (C02 characterisation instantiated: digest = commitment hash over the sent bid, recover + low-S), and embeds exactly the bid this call sent; a commitment for a different valid bid (the provider's own or a replayed one) is never surfaced; at most one delivery per provider; the number of deliveries never exceeds the channel capacity, so no sender blocks and the closer runs once all goroutines returned. Tied to the real SendBid with the real preconfsigner over a scripted topology/streamer: 0..8 providers, 17 reply classes incl. different-valid-bid, replayed bid, foreign/invalid/short signatures, missing parts, error frames, garbage, silence, reset, open/write failures, forced arrival orders, deadline on or off; goroutine count sampled after completion. Whole node: the scenarios of harness/cmd/nodewire (two real nodes built by node.NewNode against a scripted JSON-RPC chain node, driven through their gRPC APIs: stake / allowance present or not, engine accepts or rejects, well-formed or malformed request) are part of this check and are judged by Model/Wiring.",
     "level_note": "Trusted: Lean kernel; harness; liveness is proved under the contract that every blocking stream operation returns by the caller's deadline (stream.ReadMsg/WriteMsg select on ctx); real goroutine scheduling is sampled, not proved. When the deadline passes, a ready delivery may lose the select against ctx.Done (Go picks at random): deliveries are then compared as a sub-multiset.",
@@ -220,7 +223,7 @@ PROPS["C05"] = {
 PROPS["C04"] = {
     "harness": {"kind": "overlay", "pkg": "pkg/p2p/libp2p", "pkgname": "libp2p",
                 "files": ["libp2p/c04_test.go"], "test": "TestVerifC04"},
-    "extra_harnesses": [{"cmd": "nodewire", "tag": "nodewire"}],
+    "extra_harnesses": [{"cmd": "nodewire", "tag": "nodewire"}, {"kind": "overlay", "pkg": "pkg/p2p/libp2p", "pkgname": "libp2p", "files": ["libp2p/c14_test.go"], "test": "TestVerifC14", "tag": "c14"}],
     "level_text": "Theorems for every remote transcript (arbitrary frame lists), both directions, every local role, every registry answer and every primitive answer: characterisation of verifyReq (success iff the signature over exactly role||token verifies, to the address of the authenticated transport identity, and - for the exact role string 'provider' - the registry confirmed it; the registry is consulted at most once and only after the signature and address checks passed); a peer is admitted with (A,T) by the responder only if its first frame is such a request and its second frame echoes the node's own address and role, and by the initiator only if the responder first echoed the initiator's own address and role and then presented such a request; a peer obtains the provider role only through the exact string the stake check keys on (role strings regenerated from p2p.go); registration and notification happen only after success, signature/address failures are blocked forever and stake failures for the regenerated durations. Tied to the real handshake.Service built as libp2p.New builds it (real signer, real GetEthAddressFromPeerID) over a scripted stream, and to the real handleConnectReq / Connect on a Service with a fake libp2p host, real peerRegistry, recording notifier and real block list: message kinds per position x signature classes x role strings (incl. case/whitespace variants) x echoes x truncations x write failures x non-secp256k1 transport identity x registry answers x local roles x direction. Whole node: the scenarios of harness/cmd/nodewire (two real nodes built by node.NewNode against a scripted JSON-RPC chain node, driven through their gRPC APIs: stake / allowance present or not, engine accepts or rejects, well-formed or malformed request) are part of this check and are judged by Model/Wiring.",
     "level_note": "Trusted: Lean kernel; harness; libp2p's authentication of the remote peer id (connection security) is assumed; ECDSA recovery/verification answers come from go-ethereum directly and are parameters of the theorems; an unknown role string is admitted with role 'unknown' (allowed by the statement's 'only if', recorded).",
     "nontrivial_rule": "distinct (tag, direction, level, model observation) cells",
